@@ -1,6 +1,6 @@
 import json, itertools, collections, sys
 from multiprocessing import Pool
-sys.path.insert(0,'/repo')
+sys.path.insert(0, __import__('os').environ.get('SUT', '/repo'))
 from simple_ddl_parser import DDLParser
 from simple_ddl_parser import tokens as tok
 kws = sorted(set(tok.tokens) - {"ID","DOT","STRING_BASE","DQ_STRING","LP","RP","LT","RT","COMMAT","EQ","COMMA"})
